@@ -120,27 +120,86 @@ def sendException (seq : Int) (dumped : Val) : Except Err Bytes := Brine.dump (e
 
 /-! ### the reading side: `_dispatch` and the label walk of `_unbox` -/
 
+/-- bit patterns of the doubles 0.0 … 4.0 -/
+def smallFloat : Nat → Option Nat
+  | 0 => some 0
+  | 1 => some 0x3FF0000000000000
+  | 2 => some 0x4000000000000000
+  | 3 => some 0x4008000000000000
+  | 4 => some 0x4010000000000000
+  | _ => none
+
+/-- Python's `v == n` for a loaded value and a small constant (`True == 1`, `1.0 == 1`, `(1+0j) == 1`) -/
+def numEq (v : Val) (n : Nat) : Bool :=
+  match v with
+  | .int i => i == (n : Int)
+  | .bool b => (if b then 1 else 0) == n
+  | .float bits => smallFloat n == some bits || (n == 0 && bits == 0x8000000000000000)
+  | .complex re im =>
+    (smallFloat n == some re || (n == 0 && re == 0x8000000000000000)) && (im == 0 || im == 0x8000000000000000)
+  | _ => false
+
+inductive Unpacked where
+  | three (a b c : Val)
+  /-- an iterable of another length: ValueError -/
+  | wrongLength
+  /-- not iterable: TypeError -/
+  | notIterable
+  /-- a 3-element frozenset: the order is the interpreter's -/
+  | unordered
+
+/-- `msg, seq, args = brine.load(data)` -/
+def unpack3 : Val → Unpacked
+  | .tuple [a, b, c] => .three a b c
+  | .tuple _ => .wrongLength
+  | .bytes [a, b, c] => .three (.int (a : Nat)) (.int (b : Nat)) (.int (c : Nat))
+  | .bytes _ => .wrongLength
+  | .str [a, b, c] => .three (.str [a]) (.str [b]) (.str [c])
+  | .str _ => .wrongLength
+  | .fset [_, _, _] => .unordered
+  | .fset _ => .wrongLength
+  | _ => .notIterable
+
 /-- what `_dispatch` makes of a loaded payload -/
 inductive Incoming where
-  /-- `MSG_REQUEST`: `handler, args = raw_args` -/
-  | request (seq : Int) (handler : Val) (args : Val)
-  | reply (seq : Int) (boxed : Val)
-  | exception (seq : Int) (dumped : Val)
+  /-- `MSG_REQUEST`: goes to `_dispatch_request(seq, args)` -/
+  | request (seq : Val) (rawArgs : Val)
+  /-- `MSG_REPLY`: `_unbox(args)` goes to the callback registered under `seq` -/
+  | reply (seq : Val) (boxed : Val)
+  /-- `MSG_EXCEPTION`: `_unbox_exc(args)` goes to the callback registered under `seq` -/
+  | exception (seq : Val) (dumped : Val)
 
-/-- `msg, seq, args = brine.load(data)` then the `if msg == consts.MSG_…` chain; `valueError` is
-"invalid message type" or a failed unpacking.  (Python compares `msg` with `==`: `True == 1`, `1.0 == 1`;
-those are outside what a conforming peer sends and answer `notModelled` here.) -/
-def dispatch : Val → Except Err Incoming
-  | .tuple [.int msg, .int seq, args] =>
-    if msg = (Gen.Consts.msgRequest : Nat) then
-      match args with
-      | .tuple [h, a] => .ok (.request seq h a)
-      | _ => .error .valueError
-    else if msg = (Gen.Consts.msgReply : Nat) then .ok (.reply seq args)
-    else if msg = (Gen.Consts.msgException : Nat) then .ok (.exception seq args)
+/-- `msg, seq, args = brine.load(data)` then the `if msg == consts.MSG_…` chain (Python `==`: a bool, float or
+complex kind equal to the number matches); `valueError` is "invalid message type" or a failed unpacking. -/
+def dispatch (v : Val) : Except Err Incoming :=
+  match unpack3 v with
+  | .three msg seq args =>
+    if numEq msg Gen.Consts.msgRequest then .ok (.request seq args)
+    else if numEq msg Gen.Consts.msgReply then .ok (.reply seq args)
+    else if numEq msg Gen.Consts.msgException then .ok (.exception seq args)
     else .error .valueError
-  | .tuple [_, _, _] => .error .notModelled
-  | _ => .error .valueError
+  | .wrongLength => .error .valueError
+  | .notIterable => .error .typeError
+  | .unordered => .error .notModelled
+
+/-- which of `_dispatch_request` / `_seq_request_callback` is reached, or the exception raised -/
+def dispatchOutcome (v : Val) : String :=
+  match dispatch v with
+  | .ok (.request _ _) => "request"
+  | .ok (.reply _ _) => "reply"
+  | .ok (.exception _ _) => "exception"
+  | .error e => "err " ++ e.name
+
+/-- `handler, args = raw_args` at the top of `_dispatch_request` (a failure here is answered with MSG_EXCEPTION) -/
+def requestParts : Val → Except Err (Val × Val)
+  | .tuple [h, a] => .ok (h, a)
+  | .tuple _ => .error .valueError
+  | .bytes [h, a] => .ok (.int (h : Nat), .int (a : Nat))
+  | .bytes _ => .error .valueError
+  | .str [h, a] => .ok (.str [h], .str [a])
+  | .str _ => .error .valueError
+  | .fset _ => .error .notModelled
+  | _ => .error .typeError
 
 /-- what `_unbox` sees at one node: `label, value = package` and the `if label == consts.LABEL_…` chain -/
 inductive Node where
